@@ -817,7 +817,8 @@ class Merger:
         return merge_performed
 
     def _insert_scalar(
-        self, insert_at: YAMLPath, lhs: Any, lhs_proc: Processor, rhs: Any
+        self, insert_at: YAMLPath, lhs: Any, lhs_proc: Processor, rhs: Any,
+        node_coord: Optional[NodeCoords] = None
     ) -> bool:
         """Insert an RHS scalar into the LHS document."""
         merge_performed = False
@@ -852,6 +853,9 @@ class Merger:
             if insert_at.is_root:
                 # A Scalar document has no parent through which to be set
                 self.data = rhs
+            elif node_coord is not None and node_coord.path is not None:
+                # Only this target; insert_at may match other nodes, too
+                lhs_proc.set_value(YAMLPath(node_coord.path), rhs)
             else:
                 lhs_proc.set_value(insert_at, rhs)
             merge_performed = True
@@ -943,7 +947,7 @@ class Merger:
             else:
                 # The RHS document root is a Scalar value
                 merge_performed = self._insert_scalar(
-                    insert_at, target_node, lhs_proc, rhs)
+                    insert_at, target_node, lhs_proc, rhs, node_coord)
 
         self.logger.debug(
             "Completed merge operation, resulting in document:",
